@@ -8,6 +8,7 @@ on every run and connected to the model here.
 -/
 import RqModel.Model.Marshal
 import RqModel.Gen.Marshal
+import RqModel.Lemmas.MarshalInst
 namespace C29
 open RqModel.Marshal
 
@@ -168,7 +169,23 @@ theorem dispatch_fact :
     calls_MarshalNoop = ["pb.Marshal"] ∧ calls_UnmarshalNoop = ["pb.Unmarshal"] ∧
     calls_Marshal = ["pb.Marshal"] ∧ calls_Unmarshal = ["pb.Unmarshal"] := by decide
 
-/-! ### non-vacuity: a concrete lawful codec family and requests on both sides of a threshold -/
+/-! ### non-vacuity (1): the codec laws are satisfiable
+
+`concreteCodecs` (Lemmas/MarshalInst.lean) is a family of real, prefix-free serialisers for every
+message type with an identity "gzip"; it satisfies every law of `Codecs.Lawful`, so the round-trip
+theorems above are not vacuous. -/
+
+theorem codecs_lawful_inhabited : ∃ C : Codecs, C.Lawful := ⟨concreteCodecs, concreteCodecs_lawful⟩
+
+example (m : Marshaler) (c : Cmd) : decode concreteCodecs (encode m concreteCodecs c) = some c :=
+  unmarshal_marshal_id m concreteCodecs concreteCodecs_lawful c
+
+/-- with compression forced and the batch threshold at 0 the entry really takes the compressed path -/
+example :
+    (envelope { batch := 0, force := true } concreteCodecs (.execute ⟨some { statements := [⟨"x", [], false, false, false⟩] }, true⟩)).compressed = true := by
+  simp [envelope, marshalReq, decision, wantCompress, sqlLens]
+
+/-! ### non-vacuity (2): a concrete lawful codec family and requests on both sides of a threshold -/
 
 /-- toy codecs: protobuf = a one-byte-per-statement stand-in is not injective, so the
 examples below use the decision functions directly, which is where the hypotheses live -/
